@@ -350,7 +350,7 @@ class Engine:
             except PathAbort:
                 pass
             except Violation as v:
-                st.result = ('violation', v.kind, v.msg); done.append(st)
+                st.result = ('violation', v.kind, v.msg + ' [in ' + ' <- '.join(fr_.fn['name'][:60] for fr_ in reversed(st.frames[-3:])) + ']'); done.append(st)
             except ProgramExit as x:
                 st.result = ('exit', x.code); done.append(st)
             s.total_steps += st.steps - getattr(st, 'steps0', 0)
